@@ -214,6 +214,11 @@ def _scratch_path():
     return _PATH
 
 
+def _pin(path):
+    from mc import seams
+    seams.pin_times(path)
+
+
 def observe(text, content, by_path=False, by_fd=False):
     """Parse `text` with the implementation.  Returns (obs, exc): obs is a flat dict in the key space of
     las_ref.expected() (or None), exc is (type name, message) when the reader raised.
@@ -225,11 +230,13 @@ def observe(text, content, by_path=False, by_fd=False):
             # a file object made from a descriptor (its .name is a number), handed over without a file identity
             with open(_scratch_path(), 'w', newline='', encoding='ascii') as f:
                 f.write(text)
+            _pin(_scratch_path())
             with os.fdopen(os.open(_scratch_path(), os.O_RDONLY), 'r') as fobj:
                 las = LASRead.LASRead(fobj)
         elif by_path:
             with open(_scratch_path(), 'w', newline='', encoding='ascii') as f:
                 f.write(text)
+            _pin(_scratch_path())
             las = LASRead.LASRead(_scratch_path(), 'C09')
         else:
             las = LASRead.LASRead(io.StringIO(text), 'C09')
